@@ -93,4 +93,35 @@ theorem toU64_fmtNat (n : Nat) (h : n ≤ U64_MAX) : Scalar.toU64 (fmtNat n) = .
     have hv : decFrom body (digitVal c) = n := by simpa [decFrom] using h1
     simp [Scalar.toU64, h2.1, toU64T2_allDigits body (digitVal c) hb hd, hv, h]
 
+theorem toU64T2_fmtNat (n : Nat) (h : n ≤ U64_MAX) : toU64T2 (fmtNat n) 0 = .ok (n, []) := by
+  obtain ⟨h1, h2⟩ := fmtNat_val n
+  rw [toU64T2_allDigits (fmtNat n) 0 h2 (by simp [U64_MAX])]
+  simp [h1, h]
+
+/-- `to_i64` reads the decimal rendering of every i64 except i64::MIN back (the model of
+scalar.rs refuses the magnitude 2^63 before applying the sign). -/
+theorem toI64_fmtInt (n : Int) (h : n.natAbs ≤ I64_MAX) : Scalar.toI64 (fmtInt n) = .ok n := by
+  have hU : n.natAbs ≤ U64_MAX := by simp only [I64_MAX, U64_MAX] at *; omega
+  by_cases hneg : n < 0
+  · have hv := toU64T2_fmtNat n.natAbs hU
+    have h45 : isDigit 45 = false := by decide
+    simp only [fmtInt, hneg, if_true, toI64, toI64T, h45, toI64Go, hv]
+    have : ¬ n.natAbs > I64_MAX := by omega
+    simp [this, requireEmpty]; omega
+  · obtain ⟨h1, h2⟩ := fmtNat_val n.natAbs
+    cases hs : fmtNat n.natAbs with
+    | nil => exact absurd hs (fmtNat_ne_nil _)
+    | cons c body =>
+      rw [hs] at h1 h2
+      simp only [allDigits, List.all_cons, Bool.and_eq_true] at h2
+      have hd : digitVal c ≤ U64_MAX := by
+        have := c.toNat_lt
+        simp only [digitVal, U64_MAX]; omega
+      have hv : decFrom body (digitVal c) = n.natAbs := by simpa [decFrom] using h1
+      have hb : allDigits body = true := h2.2
+      simp only [fmtInt, hneg, if_false, hs, toI64, toI64T, h2.1, if_true, toI64Go,
+        toU64T2_allDigits body (digitVal c) hb hd, hv, hU]
+      have : ¬ n.natAbs > I64_MAX := by omega
+      simp [this, requireEmpty]; omega
+
 end Jomini.BinDe
